@@ -101,7 +101,7 @@ def gen_ratio(r, kind="any"):
 
 
 def gen_allocation(r, family=None, scale_exp=None, max_cells=10, nmods=None, allow_empty=True, allow_fixed=True,
-                   allow_depth=True, drop_cells=True, slivers=True):
+                   allow_depth=True, drop_cells=True, slivers=True, offsets=False):
     """Returns a dict:
       family, scale_exp, nx, ny, cells: [{"box":(x0,y0,x1,y1) lattice, "alloc":{m:ratio}, "depth":d, "fixed":bool}]
     The lattice may be refined locally by 'sliver' offsets: boxes then carry Fractions."""
@@ -109,7 +109,11 @@ def gen_allocation(r, family=None, scale_exp=None, max_cells=10, nmods=None, all
     scale_exp = r.choice([-1, 0, 0, 0, 1, 2]) if scale_exp is None else scale_exp
     nx, ny = r.randint(2, 12), r.randint(2, 12)
     ncells = r.randint(1, max_cells)
-    boxes = guillotine(r, (0, 0, nx, ny), ncells)
+    # most layouts start at the origin; some lie far from it (coordinates large compared with the cells)
+    ox, oy = (0, 0)
+    if offsets and r.chance(0.15):
+        ox, oy = r.choice([0, 1000, 100000]), r.choice([0, 1000, 100000, 333333])
+    boxes = guillotine(r, (ox, oy, ox + nx, oy + ny), ncells)
     if drop_cells and len(boxes) > 2 and r.chance(0.3):
         for _ in range(r.randint(1, max(1, len(boxes) // 3))):
             if len(boxes) > 1:
